@@ -24,6 +24,12 @@
      `tree_comm_law` ((l) ∘ (r) ≡ (r) ∘ (l) for a commutative operator), `tree_assoc_law` (((x) ∘ (y)) ∘ (z) ≡
      (x) ∘ ((y) ∘ (z)) for +, &, |, ^), `tree_equal_value_law` (any two accepted trees with the same plain value):
      the same X, Y and memory outside the compiler's own cells (`cctmp`, stack page)
+   * stages 12-14 (conditions on trees, conditions with effects, 16-bit (in)equality): the condition laws are proved
+     over the meaning that threads the state a condition leaves behind — `condRun_neg` (the written-out negation has
+     the negated value AND the same effect), `condRun_swap` (`a < b` ≡ `b > a`, `(e) < X` ≡ `X > (e)`: same value, same
+     effect), `cond_congr` (conditions with the same value and effect everywhere are interchangeable in if / while /
+     do-while / for); `while ≡ if-do-while` and `for ≡ while` hold with effects because both spellings evaluate the
+     condition at the same moments
   Not proved: the rewrites that need arrays, switch or calls (switch vs if-chain, register vs constant
   index, call vs body in place); they are decided by metamorphic co-execution in the check (partial).
 -/
@@ -236,6 +242,7 @@ def Cond.neg : Cond → Cond
   | .cmpE op e b l => .cmpE op.negate e b l
   | .truthE e => .not (.truthE e)
   | .cmpR op e y l => .cmpR op.negate e y l
+  | .wcmp ne s w => .wcmp (!ne) s w
 
 /-- every comparison written from the other side (`a ⋈ b` ↦ `b ⋈' a`) -/
 def Cond.swap : Cond → Cond
@@ -269,6 +276,7 @@ theorem condRun_neg (L : Layout) (c : Cond) : ∀ m : SrcSt,
   | cmpE op e b l => intro m; cases l <;> simp [Cond.neg, evalCond_cmp, evalCond_truth, evalCond_nottruth, evalCond_cmpE, evalCond_truthE, evalCond_not, evalCond_and, evalCond_or, condEff_cmp, condEff_truth, condEff_nottruth, condEff_cmpE, condEff_truthE, condEff_not, condEff_and, condEff_or, negate_means_not]
   | truthE e => intro m; simp [Cond.neg, evalCond_cmp, evalCond_truth, evalCond_nottruth, evalCond_cmpE, evalCond_truthE, evalCond_not, evalCond_and, evalCond_or, condEff_cmp, condEff_truth, condEff_nottruth, condEff_cmpE, condEff_truthE, condEff_not, condEff_and, condEff_or]
   | cmpR op e y l => intro m; cases l <;> simp [Cond.neg, evalCond_cmpR, condEff_cmpR, negate_means_not]
+  | wcmp ne s w => intro m; cases ne <;> simp [Cond.neg, evalCond_wcmp, condEff_wcmp]
 
 theorem evalCond_neg (L : Layout) (m : SrcSt) (c : Cond) : evalCond L m (Cond.neg c) = !evalCond L m c := (condRun_neg L c m).1
 theorem condEff_neg (L : Layout) (m : SrcSt) (c : Cond) : condEff L m (Cond.neg c) = condEff L m c := (condRun_neg L c m).2
@@ -293,6 +301,7 @@ theorem condRun_swap (L : Layout) (c : Cond) : ∀ m : SrcSt,
   | cmpE op e b l => intro m; cases l <;> simp [Cond.swap, evalCond_cmp, evalCond_truth, evalCond_nottruth, evalCond_cmpE, evalCond_truthE, evalCond_not, evalCond_and, evalCond_or, condEff_cmp, condEff_truth, condEff_nottruth, condEff_cmpE, condEff_truthE, condEff_not, condEff_and, condEff_or, mirror_means_swap]
   | truthE e => intro m; exact ⟨rfl, rfl⟩
   | cmpR op e y l => intro m; cases l <;> simp [Cond.swap, evalCond_cmpR, condEff_cmpR, mirror_means_swap]
+  | wcmp ne s w => intro m; exact ⟨rfl, rfl⟩
 
 theorem evalCond_swap (L : Layout) (m : SrcSt) (c : Cond) : evalCond L m (Cond.swap c) = evalCond L m c := (condRun_swap L c m).1
 theorem condEff_swap (L : Layout) (m : SrcSt) (c : Cond) : condEff L m (Cond.swap c) = condEff L m c := (condRun_swap L c m).2
